@@ -355,3 +355,31 @@ Check SrcTie3EncKeys.non_recipient_fails_src.
 Theorem C07_tie_non_recipient_fails_src : ltac:(let t := type of SrcTie3EncKeys.non_recipient_fails_src in exact t).
 Proof. exact SrcTie3EncKeys.non_recipient_fails_src. Qed.
 Print Assumptions C07_tie_non_recipient_fails_src.
+
+(* ---------- Tie A level 1, work package cryptoT (tools/src2v3_crypto.py -> gen/Src3g.v): ecc.rs translated statement by
+   statement over the TRANSLATED aesgcm.rs and proved equal to Ecies.v; the recipient theorems carried onto the translated code ---------- *)
+From MLA Require SrcTie3Ecies SrcTie3CryptoEx.
+Theorem C07_tie_derive_key_src : ltac:(let t := type of SrcTie3Ecies.derive_key_src in exact t).
+Proof. exact SrcTie3Ecies.derive_key_src. Qed.
+Print Assumptions C07_tie_derive_key_src.
+Theorem C07_tie_store_key_src : ltac:(let t := type of SrcTie3Ecies.store_key_src in exact t).
+Proof. exact SrcTie3Ecies.store_key_src. Qed.
+Print Assumptions C07_tie_store_key_src.
+Theorem C07_tie_retrieve_key_src : ltac:(let t := type of SrcTie3Ecies.retrieve_key_src in exact t).
+Proof. exact SrcTie3Ecies.retrieve_key_src. Qed.
+Print Assumptions C07_tie_retrieve_key_src.
+Theorem C07_tie_count_keys_src : ltac:(let t := type of SrcTie3Ecies.count_keys_src in exact t).
+Proof. exact SrcTie3Ecies.count_keys_src. Qed.
+Print Assumptions C07_tie_count_keys_src.
+Theorem C07_tie_ecies_consts_src : Src3g.ECIES_NONCE = Src.ECIES_NONCE /\ Src3g.DERIVE_KEY_INFO = Src.DERIVE_KEY_INFO.
+Proof. exact (conj SrcTie3Ecies.ECIES_NONCE_src SrcTie3Ecies.DERIVE_KEY_INFO_src). Qed.
+Print Assumptions C07_tie_ecies_consts_src.
+Theorem C07_any_recipient_opens_src : ltac:(let t := type of SrcTie3Ecies.any_recipient_opens_src in exact t).
+Proof. exact SrcTie3Ecies.any_recipient_opens_src. Qed.
+Print Assumptions C07_any_recipient_opens_src.
+Theorem C07_no_other_key_opens_src : ltac:(let t := type of SrcTie3Ecies.no_other_key_opens_src in exact t).
+Proof. exact SrcTie3Ecies.no_other_key_opens_src. Qed.
+Print Assumptions C07_no_other_key_opens_src.
+(* non-vacuity: RFC 7748's keys, HKDF-SHA256, AES-256-GCM through the translated store / retrieve / count_keys *)
+Check SrcTie3CryptoEx.src_ecies_roundtrip.
+Check SrcTie3CryptoEx.kdf_src_is_hkdf.
